@@ -468,6 +468,11 @@ func NewPlanGen(rng *Rand, o GenOpts) *PlanGen {
 	if rng.Chance(1, 2) {
 		g.P.Proto = 0x20
 	}
+	if rng.Chance(1, 8) {
+		// any protocol version with an accepted major number: minor versions above and below
+		// the ones the library writes itself
+		g.P.Proto = []byte{0x21, 0x2F, 0x15, 0x1F, 0x00, 0x0F, 0x24}[rng.Intn(7)]
+	}
 	if hs == 14 && rng.Chance(1, 6) {
 		g.P.HeaderCRCZero = true
 	}
